@@ -38,6 +38,7 @@ type End struct {
 	local  Addr
 	remote Addr
 	SUT    bool // owned by the code under test
+	Owned  bool // handed to the code under test (dialed by it, or returned by its Accept)
 
 	rbuf    []byte
 	reof    bool  // FIN received (after rbuf)
@@ -196,6 +197,7 @@ func (n *Net) dial(network, addr string, to time.Duration) (net.Conn, error) {
 		return nil, &net.OpError{Op: "dial", Net: "tcp", Addr: Addr(addr), Err: os.ErrDeadlineExceeded}
 	}
 	p, s := n.pairLocked("d", true, false, fmt.Sprintf("proxy:%d", n.connSeq+1), addr)
+	p.Owned = true
 	n.mu.Unlock()
 	n.rt.Logf("dial %s ok -> %s", addr, p.Name)
 	srv.Accept(s)
@@ -299,6 +301,7 @@ func (l *Listener) Accept() (net.Conn, error) {
 			l.q = l.q[1:]
 			if it.err == nil {
 				l.Accepted++
+				it.conn.Owned = true
 			}
 			l.n.mu.Unlock()
 			if it.err != nil {
@@ -791,7 +794,7 @@ func (n *Net) OpenSUTEnds() []*End {
 	defer n.mu.Unlock()
 	var out []*End
 	for _, e := range n.Ends {
-		if e.SUT && !e.closed {
+		if e.SUT && e.Owned && !e.closed {
 			out = append(out, e)
 		}
 	}
